@@ -80,7 +80,12 @@ def chain(cfg, text):
         if r2.err.strip() or r2.rc not in (0, 3):
             return ("second-fix-error", r2.err.strip()[:300]), info
         if d2 != d1 or r2.rc != 0:
-            return ("not-idempotent", {"after_first_fix": d1, "after_second_fix": d2, "second_rc": r2.rc}), info
+            # which fix-capable rules did the first run leave behind? (signature class)
+            with app.Sandbox({"t.md": d1}) as sb1:
+                r3 = app.run_main(args + ["scan", "t.md"], sb1)
+            fails, _ = app.parse_failures(r3.out)
+            left = sorted({f["rule"].lower() for f in fails} & fxset)
+            return ("not-idempotent:" + ("+".join(left) or "nothing-reported"), {"after_first_fix": d1, "after_second_fix": d2, "second_rc": r2.rc, "fixable_still_reported_after_first_fix": left}), info
         r3 = app.run_main(args + ["scan", "t.md"], sb)
         fails, _ = app.parse_failures(r3.out)
         left = sorted({f["rule"].lower() for f in fails} & fxset)
@@ -134,8 +139,8 @@ def evaluate(payload):
 def classify(key, sig, detail):
     if sig.startswith("fixable-left"):
         return sig, f"after one fix run a fix-capable rule still reports ({sig.split(':', 1)[1]}): the fix did not finish the job"
-    if sig == "not-idempotent":
-        return sig, "a second fix run changes the file again (or reports it fixed again)"
+    if sig.startswith("not-idempotent"):
+        return sig, f"a second fix run changes the file again or reports it fixed again (fix-capable rules still reporting after the first run: {sig.split(':', 1)[1]})"
     if sig.startswith("fix-error"):
         return sig, f"fix aborts with an application error ({sig.split(':', 1)[1]}), leaving fixable failures in place"
     return sig, f"fix chain violates the contract: {sig}"
